@@ -590,7 +590,7 @@ pub fn exhaustive_scn(mut idx: u64, max_len: u32) -> Option<E1Scn> {
         let k = idx % ALPHA;
         idx /= ALPHA;
         let gap = if settled { 1000 } else if i == 0 { 0 } else { 0 };
-        steps.push(Step { gap, op: letter(k, &mut sigs), waiters: 1, inline: false, cancel_after: None });
+        steps.push(Step { gap, op: letter(k, &mut sigs), waiters: 1, inline: false, cancel_after: None, late_clone: None });
     }
     Some(E1Scn {
         family: if settled { "exh-settled".into() } else { "exh-burst".into() },
@@ -635,7 +635,7 @@ pub fn gen_model_random(rng: &mut Rng) -> E1Scn {
                 _ => Op::Run,
             };
         }
-        steps.push(Step { gap, op, waiters: rng.below(3) as u8, inline: false, cancel_after: None });
+        steps.push(Step { gap, op, waiters: rng.below(3) as u8, inline: false, cancel_after: None, late_clone: None });
     }
     let children = (0..rng.range(1, 4))
         .map(|_| {
